@@ -1196,6 +1196,21 @@ fn evaluate_scalar_func(
             let arr = evaluated_args
                 .first()
                 .ok_or_else(|| QueryError::InvalidArgument("ABS requires 1 argument".into()))?;
+            // |MIN| is not representable: an error, not a wrapped (negative) result
+            let overflows = match arr.data_type() {
+                DataType::Int64 => arr
+                    .as_any()
+                    .downcast_ref::<Int64Array>()
+                    .is_some_and(|a| a.iter().flatten().any(|v| v == i64::MIN)),
+                DataType::Int32 => arr
+                    .as_any()
+                    .downcast_ref::<Int32Array>()
+                    .is_some_and(|a| a.iter().flatten().any(|v| v == i32::MIN)),
+                _ => false,
+            };
+            if overflows {
+                return Err(QueryError::Execution("ABS: integer overflow".into()));
+            }
             apply_math_unary_preserve_int(arr, |x| x.abs(), |x| x.abs())
         }
 
